@@ -147,8 +147,10 @@ class ContainerValidate(Contract):
 
         k = cur().choose([("DataFrame", None), ("not_a_table", None)], "kind(check_obj)")
         obj = FrameVal.fresh("check_obj") if k == 0 else SAny(name="check_obj")
+        schema = T.Ref(None, drop_invalid_rows=T.Const(self.fixed.get("drop", False)), name=T.Opt(T.Label)).fresh("schema")
+        cur().ghost["validating_schema"] = schema  # the caller's frame may already carry this very schema in its .pandera accessor
         return {"self": T.Ref(B).fresh("self"), "check_obj": obj,
-                "schema": T.Ref(None, drop_invalid_rows=T.Const(self.fixed.get("drop", False)), name=T.Opt(T.Label)).fresh("schema"),
+                "schema": schema,
                 "lazy": self.arg("lazy", T.Bool), "inplace": self.arg("inplace", T.Bool),
                 "head": T.fresh_value(T.Any, "head"), "tail": T.fresh_value(T.Any, "tail"), "sample": T.fresh_value(T.Any, "sample"),
                 "random_state": T.fresh_value(T.Any, "random_state")}
@@ -215,5 +217,43 @@ class ContainerValidate(Contract):
             out["foreign_exception_only_from_user_parser"] = exc.attrs.get("__from_callback__", (None,))[0] == "parser"
         return out
 
+
+def _container_probe(rec):
+    """native replay for a refuted lineage / composition obligation of DataFrameSchemaBackend.validate: a frame that already carries
+    the schema in its .pandera accessor (the result of an earlier validate) and was modified since must be validated again in full;
+    parsers must all be applied (coerce + default + filter) and the checks must see their result"""
+
+    def thunk():
+        import warnings
+
+        import pandas as pd
+        import pandera as pa
+
+        warnings.simplefilter("ignore")
+        obs, bad = {}, False
+        schema = pa.DataFrameSchema({"a": pa.Column(int, pa.Check.gt(0))})
+        out = schema.validate(pd.DataFrame({"a": [1, 2]}))
+        out.loc[0, "a"] = -5
+        for inplace in (False, True):
+            try:
+                schema.validate(out, inplace=inplace)
+                obs[f"re-validation of a tagged frame made invalid (inplace={inplace})"] = "accepted"
+                bad = True
+            except (pa.errors.SchemaError, pa.errors.SchemaErrors):
+                pass
+        full = pa.DataFrameSchema({"a": pa.Column(int, pa.Check.gt(0), coerce=True), "b": pa.Column(float, default=1.5, nullable=False)},
+                                  strict="filter", add_missing_columns=True)
+        res = full.validate(pd.DataFrame({"a": ["1", "2"], "x": [0, 0]}))
+        want = {"columns": ["a", "b"], "a": [1, 2], "b": [1.5, 1.5]}
+        got = {"columns": list(res.columns), "a": res["a"].tolist() if "a" in res else None, "b": res["b"].tolist() if "b" in res else None}
+        if got != want or str(res["a"].dtype) != "int64":
+            bad = True
+            obs["parser chain (add missing, filter, default, coerce)"] = {"expected": want, "got": got}
+        return bad, obs or "tagged frames are re-validated in full; the parser chain is applied in order"
+
+    return thunk
+
+
+ContainerValidate.concretize = lambda self, rec: _container_probe(rec)
 
 CONTRACTS = [ContainerValidate]
